@@ -1,12 +1,15 @@
 """C06 - decided on the channel state machine extended with transport faults
 (Model/Chan.v: NFaultRecv / NFaultSend / NFaultPoll on channel 0)."""
 from harness.chandrv import ChanDriver
+from harness import concdrv
 
 
 class Driver(ChanDriver):
     PID = 'C06'
     PROP = 'c06_ok'
     PROFILES = [('faults', 250, 3000)]
+    CONC = [('fault', concdrv.gen_fault, 'conc_fault_ok', 40, 600),
+            ('openfault', concdrv.gen_openfault, 'conc_openfault_ok', 20, 200)]
     RULE = ("scenarios from the profile faults of harness/changen.py: a session of "
             "synchronous calls, gets, (confirmed) publishes, consumers and idle "
             "periods on 1-2 channels in which the transport fails once - EOF or "
